@@ -8,6 +8,7 @@ Progs(u) == CASE Family = "pairs" -> Pairs(0)
            [] Family = "skeletons" -> Skeletons(D)
            [] Family = "maplits" -> MapLits(D)
            [] Family = "closures" -> Closures(D)
+           [] Family = "blockclosures" -> BlockClosures(0) \cup MultiAssigns(0)
 VARIABLE prog
 Init == prog \in Progs(0)
 Next == UNCHANGED prog
